@@ -54,3 +54,12 @@ def _psi_end_backtrack(case, clause):
     if not (case["psi"][1] > 0 or case["psi"][3] > 0):
         return False
     return bool(re.search(r":(end|cost|empty)$", clause))
+
+
+@predicate("c08_expand_slice_subrange")
+def _c08_expand_slice_subrange(case, clause):
+    """ASan report inside dtw_expand_wps_slice for a proper sub-range of the matrix."""
+    if case.get("kind") != "slice" or "dtw_expand_wps_slice" not in clause:
+        return False
+    rb, re_, cb, ce = case["slice"]
+    return not (rb == 0 and cb == 0 and re_ == len(case["s1"]) + 1 and ce == len(case["s2"]) + 1)
